@@ -1263,9 +1263,9 @@ class YearMonthDuration(Duration):
             raise TypeError("cannot multiply a %r by %r" % (type(self), type(other)))
         return YearMonthDuration(months=int(round_number(self.months * other)))
 
-    def __truediv__(self, other: object) -> Union[float, 'YearMonthDuration']:
+    def __truediv__(self, other: object) -> Union[Decimal, 'YearMonthDuration']:
         if isinstance(other, self.__class__):
-            return self.months / other.months
+            return Decimal(self.months) / Decimal(other.months)  # an xs:decimal, as for dayTimeDurations
         elif isinstance(other, (float, int, Decimal)):
             return YearMonthDuration(months=int(round_number(self.months / other)))
         else:
